@@ -212,6 +212,39 @@ def gen_product(NMAX):
     return gen
 
 
+def gen_product_long(N, shapes):
+    """BOUNDED: one long product (N plain + N prepared pairs, an identity member at a few positions, also beyond position 64): a per-pair bit mask,
+    a narrow pair counter or a fixed-size scratch array shows only past the machine-word / small-constant boundary"""
+    def gen(tu):
+        f = tu.func("miller_loop(Fq12 &, AffinePair *, unsigned long, PreparedPair *, unsigned long)")
+        for (n, m) in shapes:
+            def run(path, n=n, m=m):
+                dom, I = mkdom(tu, path)
+                ap = [I.new_object("AffinePair") for _ in range(n)]
+                pp = [I.new_object("PreparedPair") for _ in range(m)]
+                want = LinE()
+                for j, pr in enumerate(ap + pp):
+                    k = j if j < n else j - n
+                    kd = "g1inf" if k in (3, N - 4) else ("g2inf" if k in (5, N - 2) else "ok")
+                    Pn, Qn = "P%d" % j, "Q%d" % j
+                    pr.f["g1"].v = Ptr(pt(I, "G1Affine", Pn, kd == "g1inf"))
+                    if j < n:
+                        pr.f["g2"].v = Ptr(pt(I, "G2Affine", Qn, kd == "g2inf"))
+                    else:
+                        pr.f["g2"].v = Ptr(prepared(I, tu, Qn, kd == "g2inf"))
+                        pr.f["coeff_idx"].v = 12345
+                    if kd == "ok":
+                        want = want + reference(Pn, Qn)[0]
+                res = I.new_object("Fq12")
+                A = Ptr(Arr("AffinePair", ap), 0) if n else None
+                Bp = Ptr(Arr("PreparedPair", pp), 0) if m else None
+                I.call(f, None, [res, Cell(A), Cell(n), Cell(Bp), Cell(m)])
+                return [eqv("product of %d + %d pairs == product of the single Miller loops of the non-identity pairs" % (n, m), res.val, want, dict(op="pairing:product-long", n=n, m=m))]
+            run.cx = dict(op="pairing:product-long", n=n, m=m)
+            yield "affine=%d,prepared=%d" % (n, m), guarded(run)
+    return gen
+
+
 class ExpDomain(RingDomain):
     """discrete logs in F_q12^* (cyclic of order q^12 - 1)"""
 
@@ -321,6 +354,14 @@ def units():
                    targets=["miller_loop(Fq12 &, AffinePair *, unsigned long, PreparedPair *, unsigned long)", "G2Prepared::prepare"], contracts_used=lower),
           ScenUnit("miller_loop: pairing products (<= 2 plain + <= 2 prepared pairs, identities anywhere)", ["C08", "C01"], gen_product(2), kind="bounded", bound="list lengths <= 2 + 2 (all identity patterns)",
                    targets=["miller_loop(Fq12 &, AffinePair *, unsigned long, PreparedPair *, unsigned long)"], contracts_used=lower, max_paths=100000),
+          ScenUnit("miller_loop: one long pairing product, 66 plain pairs (identity members also beyond position 64)", ["C08", "C01"], gen_product_long(66, ((66, 0),)), kind="bounded",
+                   bound="list length 66, one identity pattern", targets=["miller_loop(Fq12 &, AffinePair *, unsigned long, PreparedPair *, unsigned long)"], contracts_used=lower,
+                   note="past one 64-bit word of per-pair state"),
+          ScenUnit("miller_loop: one long pairing product, 66 prepared pairs (identity members also beyond position 64)", ["C08", "C01"], gen_product_long(66, ((0, 66),)), kind="bounded",
+                   bound="list length 66, one identity pattern", targets=["miller_loop(Fq12 &, AffinePair *, unsigned long, PreparedPair *, unsigned long)"], contracts_used=lower,
+                   note="past one 64-bit word of per-pair state"),
+          ScenUnit("miller_loop: one long pairing product, 70 + 70 pairs", ["C08"], gen_product_long(70, ((70, 70),)), kind="bounded", tier="thorough",
+                   bound="list lengths 70 + 70, one identity pattern", targets=["miller_loop(Fq12 &, AffinePair *, unsigned long, PreparedPair *, unsigned long)"], contracts_used=lower),
           ScenUnit("miller_loop: pairing products (<= 3 plain + <= 3 prepared pairs)", ["C08"], gen_product(3), tier="thorough", kind="bounded", bound="list lengths <= 3 + 3",
                    targets=["miller_loop(Fq12 &, AffinePair *, unsigned long, PreparedPair *, unsigned long)"], contracts_used=lower, max_paths=100000),
           ScenUnit("final_exponentiation: exponent == 3 (q^12-1)/r", ["C01", "C18"], gen_final_exp, targets=["final_exponentiation"], contracts_used=lower),
